@@ -26,6 +26,9 @@ fn to_ws(m: &M) -> Message {
     match m { M::B(b) => Message::binary(b.clone()), M::Text => Message::Text("ignored".into()), M::Ping => Message::Ping(vec![1, 2]) }
 }
 
+/// status code of the Close frame the server sends when it closes (0 = a Close without a frame)
+static CLOSE_CODE: std::sync::atomic::AtomicU32 = std::sync::atomic::AtomicU32::new(0);
+
 fn rt() -> tokio::runtime::Runtime {
     tokio::runtime::Builder::new_current_thread().enable_all().build().unwrap()
 }
@@ -40,7 +43,9 @@ async fn serve(msgs: Vec<M>, close: bool) -> (std::net::SocketAddr, tokio::task:
         for m in &msgs { let _ = ws.send(to_ws(m)).await; }
         let mut got = vec![];
         if close {
-            let _ = ws.close(None).await;
+            let code = CLOSE_CODE.load(std::sync::atomic::Ordering::Relaxed);
+            let frame = if code == 0 { None } else { Some(tokio_tungstenite::tungstenite::protocol::CloseFrame { code: (code as u16).into(), reason: "relay restarting".into() }) };
+            let _ = ws.close(frame).await;
         }
         // collect what the client writes (until it goes quiet)
         loop {
@@ -129,7 +134,8 @@ pub fn session_case(ctx: &mut Ctx, frames: &[Vec<u8>], msgs: &[M], label: &str) 
             (out, replies)
         })
     }));
-    let input = format!("ws.session {} {}", if frames.is_empty() { "-".to_string() } else { frames.iter().map(|f| hex(f)).collect::<Vec<_>>().join("+") }, msgs_text(msgs));
+    let code = CLOSE_CODE.load(std::sync::atomic::Ordering::Relaxed);
+    let input = format!("ws.session {} {}{}", if frames.is_empty() { "-".to_string() } else { frames.iter().map(|f| hex(f)).collect::<Vec<_>>().join("+") }, msgs_text(msgs), if code == 0 { String::new() } else { format!(" close={}", code) });
     match got {
         None => ctx.violation("c20/session/panic", "WebSocket session panicked", &input, "packets", "panic"),
         Some((out, replies)) => {
@@ -259,9 +265,12 @@ pub fn run(ctx: &mut Ctx) {
                     let o: Vec<usize> = if *offers == "-" { vec![] } else { offers.split(',').filter_map(|x| x.parse().ok()).collect() };
                     adaptor_case(ctx, *c == "1", &o, &parse_msgs(msgs));
                 },
-                ["ws.session", frames, msgs] => {
+                ["ws.session", frames, msgs] | ["ws.session", frames, msgs, _] => {
                     let f: Vec<Vec<u8>> = if *frames == "-" { vec![] } else { frames.split('+').map(unhex).collect() };
+                    let code: u32 = w.get(3).and_then(|c| c.strip_prefix("close=")).and_then(|c| c.parse().ok()).unwrap_or(0);
+                    CLOSE_CODE.store(code, std::sync::atomic::Ordering::Relaxed);
                     session_case(ctx, &f, &parse_msgs(msgs), "replay");
+                    CLOSE_CODE.store(0, std::sync::atomic::Ordering::Relaxed);
                 },
                 ["ws.write", frames] => write_case(ctx, &frames.split('+').map(unhex).collect::<Vec<_>>()),
                 ["ws.backpressure", n] => backpressure_case(ctx, n.parse().unwrap_or(3000)),
@@ -315,6 +324,13 @@ pub fn run(ctx: &mut Ctx) {
         if quick && mask % 16 != 5 { continue; }
         let msgs: Vec<M> = partition_by_mask(&stream, mask).into_iter().filter_map(|e| if let crate::transport::Ev::Data(b) = e { Some(M::B(b)) } else { None }).collect();
         session_case(ctx, &short, &msgs, "packets");
+    }
+    // however the peer closes (any status code, with a reason), closure is 'disconnected' after everything sent before it
+    for code in [1000u32, 1001, 1002, 1003, 1007, 1008, 1009, 1011, 1012, 1013, 3000, 4000, 4999] {
+        CLOSE_CODE.store(code, std::sync::atomic::Ordering::Relaxed);
+        session_case(ctx, &short, &[M::B(stream.clone())], "packets");
+        session_case(ctx, &[], &[], "packets");
+        CLOSE_CODE.store(0, std::sync::atomic::Ordering::Relaxed);
     }
     ctx.exhaustive_domains.push(format!("all splits of a 12-byte three-frame stream into binary messages{}", if quick { " (every 16th in quick)" } else { "" }));
     for _ in 0..(if quick { 6 } else { 200 }) {
